@@ -33,6 +33,7 @@ type raceTarget struct {
 	keys     func() error
 	roots    func() error
 	finalize func() error
+	other    func(kind string)
 	cleanup  func()
 }
 
@@ -52,6 +53,16 @@ func openRaceTarget(t *Trace, dir string, n int) (*raceTarget, error) {
 		rt.keys = func() error { _, err := s.Keys(); return err }
 		rt.roots = func() error { _, err := s.Roots(); return err }
 		rt.finalize = s.Finalize
+		rt.other = func(kind string) {
+			switch kind {
+			case "finalize_ro":
+				s.FinalizeReadOnly()
+			case "close":
+				s.Close()
+			case "discard":
+				s.Discard()
+			}
+		}
 	case "sc":
 		f, err := sim.OpenFile(path, os.O_RDWR|os.O_CREATE, 0o644)
 		if err != nil {
@@ -141,6 +152,10 @@ func RunRaceProgram(t *Trace, dir string, n int) error {
 					}
 				case "finalize":
 					rt.finalize()
+				case "finalize_ro", "close", "discard":
+					if rt.other != nil {
+						rt.other(op.Kind)
+					}
 				}
 			}
 		}()
